@@ -141,6 +141,9 @@ func (c *wsConn) nextWriter(cb func(io.Writer)) {
 	wcl, err := c.conn.NextWriter(websocket.TextMessage)
 	if err != nil {
 		log.Error("handle me:", err)
+		// The connection is gone, but the callback must still run: callers such
+		// as lazyWriter block until it has been invoked.
+		cb(io.Discard)
 		return
 	}
 
